@@ -31,6 +31,10 @@ type c19Scenario struct {
 	FastTick   bool     `json:"fast_tick"`          // 100 us interval: a tick is practically always pending when Stop is called
 	ErrKind    int      `json:"err_kind,omitempty"` // rotates the kind of error the failing pings return (plain / deadline exceeded / canceled)
 	PingMs     int      `json:"ping_ms,omitempty"`  // every scripted ping takes this long to answer (a ping that fails by timing out is slow)
+	// IntervalMs > 0: the check interval (instead of 10 ms) - longer than a round with retries takes, as in production (1 min
+	// by default): after a round that recovered no tick is pending. TailMs: how long the child goes on after the window.
+	IntervalMs int `json:"interval_ms,omitempty"`
+	TailMs     int `json:"tail_ms,omitempty"`
 }
 
 const c19IntervalMs = 10
@@ -97,6 +101,9 @@ func c19Child(raw json.RawMessage) any {
 	if sc.FastTick {
 		interval = 100 * time.Microsecond
 	}
+	if sc.IntervalMs > 0 {
+		interval = time.Duration(sc.IntervalMs) * time.Millisecond
+	}
 	hc := couchbase.NewHealthCheck(&config.HealthCheck{Interval: interval, Timeout: time.Second}, cl)
 	hc.Start()
 	if sc.StartTwice {
@@ -142,6 +149,8 @@ func c19Child(raw json.RawMessage) any {
 		fmt.Printf("WINDOW_END %d\n", time.Since(t0).Milliseconds())
 		if sc.Stop == "after_rounds" {
 			stop()
+		} else if sc.TailMs > 0 {
+			time.Sleep(time.Duration(sc.TailMs) * time.Millisecond)
 		}
 	}
 	if sc.Stop != "none" {
@@ -250,7 +259,23 @@ func c19Exec(sc c19Scenario) string {
 			}
 		}
 	}
-	if windowEnd >= 0 && !sc.FastTick {
+	if sc.IntervalMs > 0 && sc.Stop == "none" && len(sc.Rounds) == 1 {
+		// a round that recovered is without consequence: the next round starts with the next tick (one interval after the
+		// tick that started the recovered round)
+		nextTick := int64(2 * sc.IntervalMs)
+		found := false
+		for _, p := range pings[idx:] {
+			found = found || (p.ms > nextTick-300 && p.ms < nextTick+700)
+		}
+		if !found {
+			var at []int64
+			for _, p := range pings {
+				at = append(at, p.ms)
+			}
+			return fmt.Sprintf("interval %d ms: the round that began at the first tick recovered (%s); no ping at the next tick (%d ms) - pings at %v ms: the recovered round was not without consequence", sc.IntervalMs, sc.Rounds[0], nextTick, at)
+		}
+	}
+	if windowEnd >= 0 && !sc.FastTick && sc.IntervalMs == 0 {
 		// rate in the 300 ms window of successful rounds: one ping per tick, never more (also after repeated Start)
 		cnt := 0
 		for _, p := range pings[idx:] {
@@ -391,6 +416,17 @@ func TestC19_Sequences(t *testing.T) {
 			}
 			scs = append(scs, sc)
 		}
+		// production-like intervals (longer than a round with retries): Stop() shortly after a round that recovered, and
+		// the round after a recovered one
+		for i, k := 0, scale(2, 6); i < k; i++ {
+			r := strings.Repeat("F", rapid.IntRange(1, 2).Draw(rt, "lfails")) + "S"
+			if i%2 == 0 {
+				scs = append(scs, c19Scenario{Rounds: []string{r}, Stop: "after_rounds", IntervalMs: rapid.SampledFrom([]int{4000, 5000}).Draw(rt, "linterval"), ErrKind: rapid.IntRange(0, 3).Draw(rt, "lerrkind")})
+			} else {
+				iv := rapid.SampledFrom([]int{2500, 3000}).Draw(rt, "linterval2")
+				scs = append(scs, c19Scenario{Rounds: []string{r}, Stop: "none", IntervalMs: iv, TailMs: 2*iv - (iv + 1000*(len(r)-1)) + 600, ErrKind: rapid.IntRange(0, 3).Draw(rt, "lerrkind")})
+			}
+		}
 	})
 	_ = sh
 	for i, d := range runParallel(scs) {
@@ -407,6 +443,9 @@ func TestC19_Sequences(t *testing.T) {
 		lab := "stop_" + scs[i].Stop
 		if scs[i].FastTick {
 			lab += "_fast_tick"
+		}
+		if scs[i].IntervalMs > 0 {
+			lab += "_long_interval"
 		}
 		record("C19", scs[i], len(scs[i].Rounds) >= 2 || scs[i].Stop == "in_retry" || scs[i].FastTick, "sequence_cases", lab)
 		_ = fails
